@@ -16,6 +16,8 @@ FIXED = [
  ("C20", "multipart upload temp file is removed", "write-error / short-write / close-error on a multipart upload temp file: file created but not registered in FILES_TMPNAMES so Close never removed it; a failing close was ignored in a defer (MULTIPART_STRICT_ERROR stayed 0)"),
  ("C20", "log when the request body cannot be read back", "read-error on the spilled request body while assembling audit part C: record written without the body and nothing logged"),
  ("C20", "audit writers return the error", "write-error / short-write on the serial audit log (and the concurrent writer's index file): Println/Printf dropped the write error, ProcessLogging logged nothing"),
+ ("C02", "logging-phase rule must not replace", "a phase-5 rule with deny/drop/redirect overwrote the interruption recorded by the rule that blocked the request (deny in phase 1, deny in phase 5 on the same request: Interruption() reported the phase-5 rule)"),
+ ("C02", "body-limit rejection honours DetectionOnly", "ctl:ruleEngine=DetectionOnly in phase 1 + Sec{Request,Response}BodyLimitAction Reject + body over the limit: the write call returned a real 413/500 interruption and IsInterrupted() was true in DetectionOnly"),
 ]
 try:
     old = json.load(open('/verif/known_findings.json'))
